@@ -78,6 +78,12 @@ Theorem C17_reload_same_idx :
 Proof. exact reload_same_idx. Qed.
 Print Assumptions C17_reload_same_idx.
 
+Theorem C17_lock_unlock_same_idx :
+  forall (K : Type) (child : nat -> nat -> K) (ops1 ops2 ops3 : list (iop K)) (w : iwallet K),
+    i_run K child (ops1 ++ ILock :: ops2 ++ IUnlock :: ops3) w = i_run K child (ops1 ++ ops2 ++ ops3) w.
+Proof. exact lock_unlock_same_idx. Qed.
+Print Assumptions C17_lock_unlock_same_idx.
+
 (* every entry's address is the address of its public key, and its public key is
    the one of its secret key where one is held; for bip44 this needs the BIP32
    fact that public and private derivation commute (premise; subject of C16) *)
